@@ -74,7 +74,7 @@ PROPS = {
                      "frequency and resolution groups (cm/in needs 40 min and rad/deg gives no verdict in 60 min: not run), for unitless-vs-unit over all 28 named units, and for "
                      "10 representative inconvertible pairs; every ordered in-group pair at magnitude 1 (concrete inputs)",
         },
-        "outside": "the exponent bookkeeping of UnitSet Mul/Div/simplify (multiplication/division), math.div, compound units; "
+        "outside": "UnitSet Mul/Div loops (exponent add/subtract per unit; one cancellation step of simplify is decided by E2 k_unitset_simplify), math.div argument plumbing, compound-unit display; "
                    "(the three-way unit selection of + and - in Operator::eval is decided structurally by E2 k_plus_minus_units); an oracle that multiplies symbolic "
                    "magnitudes (multiplier equivalence does not finish in SAT: the ratio itself is decided on the table, its use on "
                    "concrete magnitudes)",
@@ -101,7 +101,8 @@ PROPS = {
         "assumptions": TRUST,
     },
     "C13": {
-        "engines": ["E1 Kani/CBMC"],
+        "engines": ["E1 Kani/CBMC", "E2 mirsym+z3/cvc5"],
+        "e2": True,
         "functions": [
             ("rsass::ordermap::OrderMap::insert", "ordermap.rs", r"pub fn insert"),
             ("rsass::ordermap::OrderMap::get", "ordermap.rs", r"pub fn get\(&self"),
